@@ -579,6 +579,16 @@ func (r MsgResult) String() string {
 // the app's MsgServiceRouter, on a child branch that is written back to ctx only
 // on success (what baseapp's runMsgs cache does).
 func (w *World) Deliver(ctx sdk.Context, msg sdk.Msg) (res MsgResult) {
+	return w.deliver(ctx, msg, true)
+}
+
+// DeliverToHandler hands msg to the registered handler without the stateless validation (the way a governance
+// proposal's messages reach their handlers when the proposal is executed, or a keeper is called by another module).
+func (w *World) DeliverToHandler(ctx sdk.Context, msg sdk.Msg) MsgResult {
+	return w.deliver(ctx, msg, false)
+}
+
+func (w *World) deliver(ctx sdk.Context, msg sdk.Msg, validate bool) (res MsgResult) {
 	child, write := BranchCommit(ctx)
 	func() {
 		defer func() {
@@ -587,7 +597,7 @@ func (w *World) Deliver(ctx sdk.Context, msg sdk.Msg) (res MsgResult) {
 				res.Stack = shortStack()
 			}
 		}()
-		if vb, ok := msg.(sdk.HasValidateBasic); ok {
+		if vb, ok := msg.(sdk.HasValidateBasic); ok && validate {
 			if err := vb.ValidateBasic(); err != nil {
 				res.Err = fmt.Errorf("validate basic: %w", err)
 				return
